@@ -28,7 +28,7 @@ META = {
     "rule": (
         "acknowledge type x ack callback flavour (sync, coroutine with gated completion, plain function returning a Task) x outcome (return, raise, "
         "BaseException, timeout, timeout racing completion, no-result, backend failure, sync return/raise) for "
-        "one message and for all pairs of messages processed concurrently (A=2) with save and ack completions "
+        "one message and for all pairs of messages processed concurrently (A=2) - also two deliveries of the same task id overlapping, each with its own ack callback - with save and ack completions "
         "as separate events; with and without a middleware carrying post_execute/post_save hooks. All orderings "
         "(level 1: two events in one loop iteration). The oracle runs at every ACK event, i.e. on every prefix of "
         "every explored trace (a crash after any observable event leaves exactly that prefix): #ack calls <= 1; "
@@ -167,6 +167,15 @@ def scenarios(tier: str) -> List[Dict[str, Any]]:
                 sc = _sc(at, [_msg(nm, "sync", False), _msg("return", "async", True), _msg("return", "sync", False)], 0, False, a=2)
                 sc.update({"stream": "infinite", "stop": False, "N": n_, "P": 1})
                 out.append(sc)
+    # at-least-once delivery: the same message (same task id) delivered again while its first execution is
+    # still in flight (visibility timeout, requeue) - each delivery has its own ack callback and its own point
+    for at in ACK_TYPES[:3]:
+        for n1, n2 in itertools.product(("return", "raise", "savefail", "noresult"), repeat=2):
+            for ack in ("sync", "async"):
+                m1, m2 = _msg(n1, ack, True), _msg(n2, ack, True)
+                m1["body"] = m2["body"] = "gated"
+                m2["same_id_as"] = 0
+                out.append(_sc(at, [m1, m2], 0, False))
     # the acknowledge type given as a plain string / str subclass (AcknowledgeType is a str enum)
     for at in ACK_TYPES[:3]:
         for form in ("str", "strsub"):
